@@ -111,3 +111,34 @@ def _sha512(unit):
 
 JOBS += [_sha512(u) for u in ("init", "update", "final")]
 for _j in JOBS[-3:]: _j["wip"] = True
+
+SHA1_MAXLEN = 200
+def _sha1(unit):
+    j = {"name": "sha1_%s" % unit, "props": ["C16", "C09"] if unit == "final" else ["C16"],
+         "functions": {"init": ["sha1_init_ctx"], "update": ["sha1_process_bytes"], "final": ["sha1_finish_ctx"]}[unit],
+         "harness": "harness/digest_sha1.c", "defs": ["U_%s=1" % unit, "MAXLEN=%d" % SHA1_MAXLEN, "XV_BZERO_EVENTS=1"],
+         "verif_src": ["models/strings.c"],
+         "unwind": 66, "mem_gb": 4, "timeout": 1200, "no_native": True,
+         "assumptions": ["A-det: the SHA-1 compression function is a function of (chaining value, block) - modelled by an arbitrary-but-fixed table of chaining values indexed by block number"],
+         "bound": "message length <= %d bytes; loops over blocks and over padding bytes are closed by loop contracts" % SHA1_MAXLEN}
+    st = " && ".join("ctx->state[%d] == G_STATE[%s][%d]" % (k, "%s", k) for k in range(5))
+    if unit == "update":
+        j["replace_calls"] = ["sha1_do_transform:transform_stub"]
+        j["cases"] = [("fill%d" % k, "(off & 63) == %d" % k) for k in range(64)]
+        j["cases_quick"] = ["fill0", "fill1", "fill55", "fill56", "fill63"]
+        j["cases_quick_note"] = "quick tier: buffer fill levels 0, 1, 55, 56 and 63; thorough tier: all 64 (exhaustive)"
+        j["loops"] = [{"function": "_crypt_sha1_process_bytes", "anchor": "for ( ; i + 63 < size; i += 64)",
+                       "invariant": "G_NBLK <= %d && i <= size && g_off0 + i == 64 * G_NBLK && g_off0 + size <= G_LEN && " % (SHA1_MAXLEN // 64)
+                                    + st.replace("%s", "G_NBLK"),
+                       "assigns": "i, G_NBLK, " + ", ".join("ctx->state[%d]" % k for k in range(5)),
+                       "decreases": "size - i"}]
+    if unit == "final":
+        j["replace_calls"] = ["_crypt_sha1_process_bytes:process_stub"]
+        j["loops"] = [{"function": "_crypt_sha1_finish_ctx", "anchor": "while ((ctx->count[0] & 504) != 448)",
+                       "invariant": "g_off > G_LEN && g_off <= G_PADLEN - 8 && ctx->count[0] == (unsigned int) (g_off << 3) && ctx->count[1] == 0 && ctx->buffer[g_k] == g_bufk && "
+                                    + st.replace("%s", "g_off >> 6"),
+                       "assigns": "g_off, g_bufk, __CPROVER_object_whole(ctx)",
+                       "decreases": "G_PADLEN - g_off"}]
+    return j
+
+JOBS += [_sha1(u) for u in ("init", "update", "final")]
